@@ -99,6 +99,12 @@ func (c *Ctx) N(quick, thorough int64) int64 {
 	return thorough
 }
 
+// Prelude, when set (by package mon), is run by some workers before the monitors: a handful of
+// library calls from all packages in an order that depends on the batch, so that the monitors also
+// run in processes whose *first* use of each package was something else (lazily built tables,
+// sync.Once capturing the first caller's arguments).
+var Prelude func(batch int)
+
 // QuickScale multiplies every quick-tier case count.
 const QuickScale = 8
 
